@@ -277,9 +277,39 @@ def histories(count, rng, mask=0b10111):
     return cases
 
 
+def tx_blocks(count, rng, mask=0b10111):
+    """sews composed in ONE transaction (a 1-sew right after the 2-sew/2-link that gives its left dart the image through which the
+    vertex to merge is found, unsews of what was just sewn, ...): the same calls are first run one by one from the same state.
+    Layout and two-directional oracle of C08 (`oracle_c08k`): same results and same full snapshot, or same first error and nothing
+    published; the model must agree line by line."""
+    cases = []
+    for c in range(count):
+        n = rng.randint(3, 7)
+        init = [f"new 2 {n} {mask}"] + gens.value_lines(rng, n, mask, pv=0.95, pa=0.7)
+        darts = list(range(1, n + 1))
+        for _ in range(rng.choice([0, 0, 1, 2])):
+            x, y = rng.sample(darts, 2)
+            init.append(rng.choice([f"flink 1 {x} {y}", f"fsew 1 {x} {y}", f"flink 2 {x} {y}"]))
+        l, o = rng.sample(darts, 2)
+        r = rng.choice(darts)
+        ops = [rng.choice([f"sew 2 {l} {o}", f"link 2 {l} {o}"])]
+        if rng.random() < 0.3:
+            x, y = rng.sample(darts, 2)
+            ops.append(rng.choice([f"sew 1 {x} {y}", f"sew 2 {x} {y}", f"unsew 1 {x}"]))
+        ops.append(f"sew 1 {l} {r}")
+        if rng.random() < 0.4:
+            ops.append(rng.choice([f"unsew 1 {l}", f"unsew 2 {l}", f"unsew 2 {o}"]))
+        lines = init + ["snap"] + ops + ["snap"] + init + ["tx"] + ops + ["endtx", "snap"]
+        cases.append(Case(f"tx{c}", lines, oracle="c08k", meta={"sig": "tx-block", "k": len(ops), "ninit": len(init)}))
+    return cases
+
+
 def run(tier, seed):
     rng = random.Random(seed)
     parts = []
+    from props import c08
+    parts.append(("sews composed in one transaction vs one by one",
+                  hv.campaign(tx_blocks(3000 if tier == "quick" else 40000, rng), c08.oracle_c08k)))
     if tier == "quick":
         r = hv.campaign(exhaustive(rng, 3), oracle_c04)
         r["stats"]["exhaustive"] = True
